@@ -83,11 +83,7 @@ func oracle(c caseT, b *built, pool reverseproxy.UpstreamPool, ri reqInfo, resul
 		case r.idx == -4:
 			add("unexpected-panic:"+eff.kind, "Select panicked or returned an upstream that is not in the pool")
 		case r.idx == -5:
-			if cookieUnderNilWriter(c) {
-				add("cookie-fallback-nil-writer-panic", "a cookie policy used as fallback of a header/query policy panicked (nil pointer dereference): it is handed a nil ResponseWriter and tries to set a cookie on it")
-			} else {
-				add("unexpected-panic:"+eff.kind, "Select panicked: nil pointer dereference")
-			}
+			add("unexpected-panic:"+eff.kind, "Select panicked: nil pointer dereference")
 		case r.idx == -1:
 			if anyEligible && eff.kind == "rr" && rrWrapped(b, leaf, n) {
 				add("rr-counter-wrap", fmt.Sprintf("round_robin returned nil although an upstream is available while its uint32 counter wrapped around (pool of %d, availability %s)", n, bits))
@@ -205,39 +201,6 @@ func oracle(c caseT, b *built, pool reverseproxy.UpstreamPool, ri reqInfo, resul
 func rrWrapped(b *built, leaf node, n int) bool {
 	final, _ := strconv.ParseUint(b.counter(), 10, 64)
 	return final < uint64(leaf.counter) && n&(n-1) != 0
-}
-
-// cookieUnderNilWriter: does the request reach a cookie policy that has to set a cookie
-// below a header/query policy (which calls its fallback with a nil ResponseWriter)?
-func cookieUnderNilWriter(c caseT) bool {
-	absent := false
-	for _, n := range c.chain {
-		switch n.kind {
-		case "hdr", "hhost", "qry":
-			if n.present {
-				return false
-			}
-			absent = true
-		case "ck":
-			valid := false
-			if n.cookie >= 0 {
-				for _, u := range c.pool {
-					if u.avail() && u.id == n.cookie {
-						valid = true
-					}
-				}
-			}
-			if valid {
-				return false
-			}
-			if absent {
-				return true
-			}
-		default:
-			return false
-		}
-	}
-	return false
 }
 
 // traversedCookieNodes counts the cookie policies that are passed through on the way to
